@@ -64,7 +64,9 @@ def gen_case(rng, cid, tier, family):
     nclk = rng.choice([1, 1, 2])
     steps = rng.choice([10, 16, 24]) if tier == "quick" else rng.choice([20, 40, 80])
     if family == "tv":
-        fs = [rng.choice(NORMAL_F) for _ in range(2)]
+        # 33.333333 MHz next to another clock makes the recorder's uint64 rationals wrap (known finding, kept alive by a
+        # corpus case); generated cases use it only for single clock designs
+        fs = [rng.choice(NORMAL_F if nclk == 1 else [f for f in NORMAL_F if f != F(33_333_333)]) for _ in range(2)]
         end = F(steps * 18 + 40, 10 ** 9)
         wait, tv = 0, 1
     else:
